@@ -4,7 +4,8 @@ import FormulaicVerif.Model.EntryPoints
 import FormulaicVerif.Gen.Names
 import FormulaicVerif.Gen.Plumbing
 /-! Engine of property C05. ops:
-* `entry`   a call record → the request(s) that reach `FormulaMaterializer.get_model_matrix`, for every entry point
+* `entry`   a call record (and optional follow-up records `more`) → the request(s) that reach
+            `FormulaMaterializer.get_model_matrix`, for every entry point
             (registry and NAAction values: the GENERATED `Gen.materializerOutputs`, `Gen.naActions`);
 * `sparse`  terms over source factors → `sparsePipeline` (names, indptr, indices, data) and `densePipeline`;
 * `sparseop` single operations on explicit columns. -/
@@ -84,14 +85,18 @@ def resultJ : Except Err (List Request) → Json
   | .error e => jerr e.name
   | .ok rs => Json.mkObj [("requests", jlist (rs.map requestJ))]
 
-def handleEntry (j : Json) : Json :=
-  let c := callOf (jval j "call")
-  Json.mkObj [
+def viaAll (c : Call) : List (String × Json) := [
     ("sugar", resultJ (requestVia env .sugar c)),
     ("formula", resultJ (requestVia env .formulaMethod c)),
     ("spec", resultJ (requestVia env .specMethod c)),
     ("spec_ov", resultJ (requestVia env .specMethodOv c)),
     ("materializer", resultJ (requestVia env .materializer c))]
+
+/-- `call`: the call record of the case; `more` (optional): further call records of the same case (the
+follow-up calls that hand over the spec an earlier call produced), answered in order under `"more"` -/
+def handleEntry (j : Json) : Json :=
+  Json.mkObj (viaAll (callOf (jval j "call")) ++
+    [("more", jlist ((jarr j "more").map (fun c => Json.mkObj (viaAll (callOf c)))))])
 end entry
 
 /-! ### sparse -/
